@@ -23,6 +23,8 @@ inductive Panic where
   | conv     -- `try_into().unwrap()` failing
   deriving DecidableEq, Repr
 
+deriving instance DecidableEq for Except
+
 def csub (a b : Nat) : Except Panic Nat :=
   if b ≤ a then .ok (a - b) else .error .sub
 
